@@ -8,7 +8,7 @@
  *   filters  gzip,uuencode,...      (order of archive_write_add_filter_* calls)
  *   opts     "-" or  mod:key=value;mod:key;mod:!key   (archive_write_set_filter_option;
  *            "mod:key" passes value "1", "mod:!key" passes NULL)
- *   payload  hex:<hex|->   or   gen:<kind>:<len>:<seed>[:<prefix hex>]
+ *   payload  hex:<hex|->   or   gen:<kind>:<len>:<seed>[:<prefix hex>]   or   segs:<seed>:<seg>,<seg>,…
  *            kinds: rnd (LCG bytes), rep (period-7 pattern), zero, text
  *   wchunk   all | c<N> | a+b+c (sizes cycled); a zero-size entry is a zero-length write
  *   bpb      <bytes_per_block>/<bytes_in_last_block>, "-" = library default for that one
@@ -51,6 +51,29 @@ static int ft_find(const char *w) { for (int i = 0; FT[i].w; i++) if (!strcmp(FT
 static unsigned char *mk_payload(const char *spec, size_t *n)
 {
 	if (strncmp(spec, "hex:", 4) == 0) return vh_unhex(spec + 4, n);
+	if (strncmp(spec, "segs:", 5) == 0) {
+		/* segs:<seed>:<seg>,<seg>,...  seg = t<len> text | r<len> LCG bytes | z<len> zeros |
+		 * c<dist>x<len> copy <len> bytes from <dist> bytes back (overlapping, LZ77 style) */
+		char *tmp = strdup(spec + 5), *save = NULL;
+		char *t = strtok_r(tmp, ":", &save);
+		uint64_t s = t ? strtoull(t, NULL, 10) : 0;
+		char *list = strtok_r(NULL, ":", &save);
+		size_t cap = 1 << 16, len = 0; unsigned char *b = malloc(cap);
+		static const char txt[] = "the quick brown fox jumps over the lazy dog\n";
+		for (char *g = list ? strtok_r(list, ",", &save) : NULL; g; g = strtok_r(NULL, ",", &save)) {
+			char k = g[0]; size_t dist = 0, l;
+			if (k == 'c') { dist = strtoull(g + 1, NULL, 10); char *x = strchr(g, 'x'); l = x ? strtoull(x + 1, NULL, 10) : 0; }
+			else l = strtoull(g + 1, NULL, 10);
+			if (len + l + 1 > cap) { cap = (len + l) * 2 + 16; b = realloc(b, cap); }
+			for (size_t i = 0; i < l; i++, len++) {
+				if (k == 'r') { s = s * 6364136223846793005ULL + 1442695040888963407ULL; b[len] = (unsigned char)(s >> 56); }
+				else if (k == 't') b[len] = (unsigned char)txt[len % (sizeof txt - 1)];
+				else if (k == 'c') b[len] = (dist >= 1 && dist <= len) ? b[len - dist] : 0;
+				else b[len] = 0;
+			}
+		}
+		free(tmp); *n = len; return b;
+	}
 	if (strncmp(spec, "gen:", 4) != 0) return NULL;
 	char kind[16] = ""; unsigned long long len = 0, seed = 0; char *pre = NULL;
 	char *tmp = strdup(spec + 4), *save = NULL;
